@@ -551,18 +551,14 @@ class FileCache(CacheMixin):
         return self._load_metadata(self.to_path(key))
 
     def remove(self, key):
-        metadata = self.get_metadata(key)
-        if metadata is None:
-            return True
-        if "type_identifier" in metadata:
-            t = state_types_registry().get(metadata["type_identifier"])
-            path = self.to_path(key, prefix="data_", extension=t.default_extension())
-            if os.path.exists(path):
-                os.remove(path)
+        import glob
 
         state_path = self.to_path(key)
         if os.path.exists(state_path):
             os.remove(state_path)
+        # data files of every type ever stored under the key, not only the one the metadata names
+        for path in glob.glob(self.to_path(key, prefix="data_", extension="*")):
+            os.remove(path)
 
         return True
 
